@@ -406,13 +406,15 @@ pub fn same_name_projects() -> Vec<Project> {
 pub fn file_order_projects() -> Vec<Project> {
     let mut v = Vec::new();
     // (item kind, declaration, use) - the declaration goes to one file, the use to another
-    let pairs: [(&str, &str, &str, &str); 7] = [
+    let pairs: [(&str, &str, &str, &str); 8] = [
         ("trait", "trait Show { fn show(Self) -> string; }\nstruct W { k: int32 }\nimpl Show for W { fn show(self: W) -> string { \"w\" + int32_to_string(self.k) } }\nfn mkw() -> W { W { k: 4 } }\n", "fn used() -> string { let d: dyn Show = mkw(); Show::show(d) }\n", "w4\n"),
         ("trait-and-impl-apart", "trait Show { fn show(Self) -> string; }\n", "struct W { k: int32 }\nimpl Show for W { fn show(self: W) -> string { \"w\" + int32_to_string(self.k) } }\nfn used() -> string { Show::show(W { k: 4 }) }\n", "w4\n"),
         ("trait-bound", "trait Show { fn show(Self) -> string; }\nimpl Show for int32 { fn show(self: int32) -> string { \"i\" + int32_to_string(self) } }\n", "fn via[T: Show](x: T) -> string { Show::show(x) }\nfn used() -> string { via(4) }\n", "i4\n"),
         ("struct", "struct W { k: int32 }\n", "fn used() -> string { let w = W { k: 4 }; \"w\" + int32_to_string(w.k) }\n", "w4\n"),
         ("enum", "enum E { A, B(int32) }\n", "fn used() -> string { match B(4) { A => \"a\", B(k) => \"b\" + int32_to_string(k) } }\n", "b4\n"),
         ("inherent-method", "struct W { k: int32 }\nimpl W { fn get(self: W) -> int32 { self.k } }\n", "fn used() -> string { let w = W { k: 4 }; \"w\" + int32_to_string(w.get()) }\n", "w4\n"),
+        // a foreign type named in signatures of another file (nothing foreign is called: the program runs)
+        ("extern-type", "extern type Stamp\n", "extern \"go\" \"time\" \"Unix\" unix(s: int64, n: int64) -> Stamp\nfn keep(t: Stamp) -> Stamp { t }\nfn used() -> string { \"e4\" }\n", "e4\n"),
         ("function", "fn helper() -> int32 { 4 }\n", "fn used() -> string { \"h\" + int32_to_string(helper()) }\n", "h4\n"),
     ];
     for (kind, decl, usage, out) in pairs {
@@ -443,7 +445,7 @@ pub fn file_order_projects() -> Vec<Project> {
                     files.push((f.into(), t));
                 }
             }
-            v.push(Project { name: format!("file-order-{}-declared-in-{}-used-in-{}", kind, decl_file.trim_end_matches(".gom"), use_file.trim_end_matches(".gom")), files, expected_stdout: Some(out.into()) });
+            v.push(Project { name: format!("file-order-{}-declared-in-{}-used-in-{}", kind, decl_file.trim_end_matches(".gom"), use_file.trim_end_matches(".gom")), files, expected_stdout: if kind == "extern-type" { None } else { Some(out.into()) } });
         }
     }
     v
